@@ -1,10 +1,10 @@
 """Contracts for src/dhkex.rs (the Diffie-Hellman group interface used by DHKEM)."""
 
 SK_TO_PK = '''
-        ensures /*@C03 C01*/ r.ser() == Self::s_pk_of(sk.ser())'''
+        ensures /*@C03 ~C01*/ r.ser() == Self::s_pk_of(sk.ser())'''
 DH = '''
         ensures /*@C10 C03*/ r is Ok <==> Self::s_dh(sk.ser(), pk.ser()) is Some,
-                /*@C03 C01*/ r is Ok ==> r.unwrap().ser() == Self::s_dh(sk.ser(), pk.ser()).unwrap()'''
+                /*@C03 ~C01*/ r is Ok ==> r.unwrap().ser() == Self::s_dh(sk.ser(), pk.ser()).unwrap()'''
 DERIVE = '''
         ensures /*@C03 C02*/ (r.0.ser(), r.1.ser()) == Self::s_derive(nh_of::<Kdf::HashImpl>(), suite_id@, ikm@),
                 /*@C03*/ r.1.ser() == Self::s_pk_of(r.0.ser())'''
